@@ -1,6 +1,7 @@
 """C10 — incremental language-server diagnostics equal a from-scratch analysis (DESIGN.md 4, C10)."""
 import json
 import os
+import re
 
 from gen import hist as H
 from gen.rng import Rng
@@ -111,6 +112,79 @@ def dep_graph_correspondence(ck, tier, seed):
     ck.obligation('dependency-closure correspondence ran', True, '%d graphs' % len(graphs))
 
 
+# ----------------------------------------------------------------------------- hypotheses of the theorem, tested directly
+IMPORT_RX = re.compile(r'import\s*\{[^}]*\}\s*from\s+([A-Za-z0-9_.]+)')
+
+
+def reach_through_imports(sources, m):
+    seen, todo = set(), [m]
+    while todo:
+        x = todo.pop()
+        if x in seen:
+            continue
+        seen.add(x)
+        for y in IMPORT_RX.findall(sources.get(x, '')):
+            if y not in seen:
+                todo.append(y)
+    return seen
+
+
+def hypothesis_monitor(ck, tier, seed):
+    """H_local (with H_refs) of C10_incremental_eq_fresh, on the real front end: the diagnostics of a module depend only on
+    the modules it reaches through imports. Two FRESH type-checks of module sets that differ in one module u; every module
+    that does not reach u must get the same diagnostics."""
+    from lib.front import run_jobs
+    rng = Rng(seed ^ 0x10CA1)
+    n = 120 if tier == 'quick' else 1500
+    pairs = []
+    for i in range(n):
+        r = rng.fork()
+        h = H.gen_history(r, nmods=r.range(3, 6), nsteps=3)
+        src = dict(h['init'])
+        if len(src) < 2:
+            continue
+        u = r.pick(sorted(src))
+        kind = r.below(3)
+        src2 = dict(src)
+        if kind == 0:
+            del src2[u]                                              # the module disappears
+        else:
+            src2[u] = H.module_text(r, u, sorted(src), long_ids=False)  # another version (other types, imports, errors)
+        pairs.append((src, src2, u))
+    jobs = []
+    for i, (a, b, _) in enumerate(pairs):
+        jobs.append({'id': 2 * i, 'sources': a, 'entries': [], 'compile': False})
+        jobs.append({'id': 2 * i + 1, 'sources': b, 'entries': [], 'compile': False})
+    res = {}
+    chunks = [jobs[i::16] for i in range(16)]
+    import concurrent.futures
+    with concurrent.futures.ThreadPoolExecutor(max_workers=16) as ex:
+        for part in ex.map(lambda c: run_jobs(c) if c else [], chunks):
+            for x in part:
+                res[x['id']] = x
+    checked = 0
+    for i, (a, b, u) in enumerate(pairs):
+        ra, rb = res.get(2 * i), res.get(2 * i + 1)
+        if ra is None or rb is None or ra.get('front_panic') or rb.get('front_panic'):
+            continue
+        for m in sorted(a):
+            if m == u or m not in b:
+                continue
+            # m must not reach u in either version of the sources
+            if u in reach_through_imports(a, m) or u in reach_through_imports(b, m):
+                continue
+            ea = sorted((e['kind'], e['loc'], e['msg']) for e in ra['errors'] if e['module'] == m)
+            eb = sorted((e['kind'], e['loc'], e['msg']) for e in rb['errors'] if e['module'] == m)
+            checked += 1
+            ck.case(['H_local', m, u, a[m]], bool(ea))
+            if ea != eb:
+                ck.property_failure('diagnostics of module %s change when module %s, which it does not reach through imports, changes '
+                                    '(hypothesis H_local of C10_incremental_eq_fresh fails on the real checker)' % (m, u),
+                                    {'sources_before': a, 'sources_after': b, 'module': m, 'changed': u}, expected=ea[:5], observed=eb[:5])
+    ck.count('H_local:module-pairs-checked', checked)
+    ck.obligation('hypothesis H_local tested on fresh type-checks', checked > 0, '%d (module, unrelated change) pairs' % checked)
+
+
 def run(tier, seed, replay=None):
     ck = Check(PID, tier, seed, level='proof')
     ck.checker_cmd = 'make -C /verif/coq theories/C10/Props.vo (coqc 8.16.1) + Print Assumptions per theorem'
@@ -173,6 +247,8 @@ def run(tier, seed, replay=None):
                             how='./check C10 --replay <this file>', klass=classify(small, d2))
         reported += 1
     dep_graph_correspondence(ck, tier, seed)
+    if not replay:
+        hypothesis_monitor(ck, tier, seed)
     if hs:
         ck.sample({'init_modules': sorted(hs[-1]['init']), 'ops': [dict(o, mods=[[m, t[:60] + '...'] for m, t in o['mods']]) if o['op'] == 'update' else o for o in hs[-1]['ops']][:6]})
     return ck.finish()
